@@ -217,6 +217,24 @@ def c17(tier, seed, case=None):
     return v
 
 
+# --------------------------------------------------------------------------------------- C08
+def c08(tier, seed, case=None):
+    n = 5 if tier == 'quick' else 7
+    v = _mk('C08', tier, seed, 'exploration',
+            'one case = a history of write_shape_and_record calls over {well-formed pair, shape of another type, row missing a field, '
+            'row with a value of the wrong field type}: ALL words of length <= %d, ALL words over the first two letters up to length 9 '
+            '(quick) / 12 (thorough), plus long all-success and random histories, for each of the 13 types, through Writer::new on instrumented '
+            'destinations and (a sample) Writer::from_path; then an independent walk counts shp records / shx entries / dbf header rows '
+            '/ dbf rows physically present, and the complete Reader (read, iter_shapes_and_records, Reader::from_path, '
+            'shapefile::read(path)) must return exactly the accepted pairs in order, each shape with its own row (tags carried in a '
+            'coordinate and in the row). distinct = (type, history, route); all non-trivial' % n)
+    for prof in _profiles(tier):
+        v.add_run(run_engine('C08', 'c08', prof, tier, seed, case=case))
+    if tier == 'thorough' and not case:
+        v.add_run(run_miri('C08', 'c08', tier, seed))
+    return v
+
+
 # --------------------------------------------------------------------------------------- C09
 def c09(tier, seed, case=None):
     n = 6 if tier == 'quick' else 8
@@ -388,4 +406,23 @@ def c19(tier, seed, case=None):
     return v
 
 
-PLANS = {'C07': c07, 'C17': c17, 'C15': c15, 'C11': c11, 'C12': c12, 'C13': c13, 'C09': c09, 'C10': c10, 'C14': c14, 'C03': c03, 'C02': c02, 'C04': c04, 'C01': c01, 'C05': c05, 'C06': c06, 'C16': c16, 'C18': c18, 'C19': c19}
+# --------------------------------------------------------------------------------------- C20
+def c20(tier, seed, case=None):
+    v = _mk('C20', tier, seed, 'exploration',
+            'lanes: (1) shape -> geo-types for each of the 13 types (outer-first polygons and ring-only multipatches built from groups of '
+            'an exterior and 0..3 holes; star-shaped exact-pool rings in every second case so the way back is defined) with the expected '
+            'grouping computed from the shape\'s own roles / patch kinds, and back to the 2-D shape; (2) geo-types Point, Line, '
+            'LineString, MultiLineString, Polygon (0..4 holes), MultiPolygon, MultiPoint -> shape -> geo compared as multi-geometry up '
+            'to ring orientation; (3) refusals (NullShape, strip/fan multipatches, GeometryCollection, Rect, Triangle); (4) the '
+            'geo-traits view of Point/PointM/PointZ (by value, by reference, through MultipointM/Z and PolylineM/Z line strings) for '
+            'measures in {real, NO_DATA, its neighbours, below, NaN, +-inf}: every index below dim().size() read with nth, nth_or_panic '
+            'and nth_unchecked. distinct = structure keys per lane; all non-trivial',
+            ['geo-types values are built within geo-types\' own validity rules (LineString >= 2 coordinates, non-empty components)'])
+    for prof in _profiles(tier):
+        v.add_run(run_engine('C20', 'c20', prof, tier, seed, case=case))
+    if tier == 'thorough' and not case:
+        v.add_run(run_miri('C20', 'c20', tier, seed, opts={'n': 12}))
+    return v
+
+
+PLANS = {'C20': c20, 'C08': c08, 'C07': c07, 'C17': c17, 'C15': c15, 'C11': c11, 'C12': c12, 'C13': c13, 'C09': c09, 'C10': c10, 'C14': c14, 'C03': c03, 'C02': c02, 'C04': c04, 'C01': c01, 'C05': c05, 'C06': c06, 'C16': c16, 'C18': c18, 'C19': c19}
